@@ -55,7 +55,7 @@ class Run(PropRunStream):
     quick_cases = 330
     quick_seconds = 50
     p_interrupt = 0.3           # interrupted runs are ordinary cases since fix D11 (SuiteEnd / TestSessionEnd order holds under interrupt)
-    corpus = [witness("D11 "), witness("D1 "), witness("D3 ")] + W2.CONTROLS + W2.CONTROLS2
+    corpus = [witness("D11 "), witness("D1 "), witness("D3 ")] + W2.CONTROLS3 + [W2.EMPTY_STEP_DESCRIPTION, W2.EMPTY_STEP_IN_THREAD] + W2.CONTROLS + W2.CONTROLS2
 
 
 def streams(ctx):
